@@ -8,7 +8,7 @@ from . import pcommon as pc
 def run(tier):
     ck = C.Check("C06", tier)
     failed = ck.proofs()
-    n_g, n_r = (50, 10) if tier == "quick" else (2500, 40)
+    n_g, n_r = (50, 10) if tier == "quick" else (700, 30)
     res = P.run_family(ck, n_g, n_r, p_err=0.0, want_hist=True)
     ties = pc.tie_violations(ck, res, want_kinds=("parse", "baseline"))
     st = {"errors_checked": 0, "grammars": 0, "skipped_unproductive": 0, "eof_errors": 0, "lookahead_log_checks": 0}
@@ -16,7 +16,7 @@ def run(tier):
     for r in res:
         if not pc.is_lr1(r) or r["g"]["err"]:
             continue
-        parses = {tuple(c["w"]): c for c in r["cases"] if c["kind"] == "parse"}
+        parses = {tuple(c["w"]): c for c in r["cases"] if c["kind"] == "parse" and c["earley"] is not None}
         if any(c["earley"] and c["earley"].endswith("productive=0") for c in parses.values()):
             st["skipped_unproductive"] += 1
             continue
